@@ -44,6 +44,7 @@ import (
 type AccountSpec struct {
 	Name   string `json:"name"`
 	KeyIdx int    `json:"key"` // index into the deterministic key list; abstract name "k<idx>"
+	Pass   string `json:"pass"` // this account's passphrase (default: the world's)
 }
 
 // WalletSpec describes one wallet.
@@ -158,7 +159,11 @@ func NewBase(ctx context.Context, spec Spec, log *Log, ctl *Control) (*Base, err
 				if _, err := w.(e2wtypes.WalletAccountByNameProvider).AccountByName(ctx, as.Name); err == nil {
 					continue
 				}
-				if _, err := w.(e2wtypes.WalletAccountImporter).ImportAccount(ctx, as.Name, SecretKey(as.KeyIdx), []byte(spec.Passphrase)); err != nil {
+				apass := spec.Passphrase
+				if as.Pass != "" {
+					apass = as.Pass
+				}
+				if _, err := w.(e2wtypes.WalletAccountImporter).ImportAccount(ctx, as.Name, SecretKey(as.KeyIdx), []byte(apass)); err != nil {
 					return nil, fmt.Errorf("import %s/%s: %w", ws.Name, as.Name, err)
 				}
 			}
